@@ -35,6 +35,8 @@ inductive Val where
   /-- `NestedArg(key, val)`: the value of a dotted option `--opt.KEY=val` (leading `init_args.` already removed) -/
   | nested (key : List String) (v : Val)
 
+instance : Inhabited Val := ⟨.lit "NoneType" "None"⟩
+
 abbrev KV := List (String × Val)
 
 inductive PTy where
